@@ -224,6 +224,7 @@ def run_json(r):
 
 
 REJ_RE = re.compile(r'<<"REJECT", (\d+), (\d+)>>')
+DRIFT_RE = re.compile(r'<<"DRIFT", (\d+), (\d+)>>')
 
 
 def validate_runs(runs, trace_module, workdir, nfiles=None, timeout=1800, workers_per=None, xmx="6g",
@@ -231,7 +232,7 @@ def validate_runs(runs, trace_module, workdir, nfiles=None, timeout=1800, worker
     """Validate runs with TLC. Returns (rejected [(run, idx)], stats)."""
     from concurrent.futures import ThreadPoolExecutor
     if not runs:
-        return [], {"distinct": 0, "generated": 0, "wall": 0.0, "expected_states": 0}
+        return [], {"distinct": 0, "generated": 0, "wall": 0.0, "expected_states": 0, "drift": []}
     total_ev = sum(len(r["events"]) for r in runs)
     if nfiles is None:
         nfiles = 1 if total_ev < 4000 else (2 if total_ev < 20000 else 4)
@@ -266,6 +267,7 @@ def validate_runs(runs, trace_module, workdir, nfiles=None, timeout=1800, worker
 
     t0 = time.time()
     rejected = []
+    drift = []
     distinct = generated = 0
     expected = 0
     with ThreadPoolExecutor(max_workers=nfiles) as ex:
@@ -277,6 +279,8 @@ def validate_runs(runs, trace_module, workdir, nfiles=None, timeout=1800, worker
             for m in REJ_RE.finditer(r["out"]):
                 k = int(m.group(1))
                 rej_here[k] = int(m.group(2))
+            for m in DRIFT_RE.finditer(r["out"]):
+                drift.append((idxs[int(m.group(1)) - 1], int(m.group(2))))
             exp = 0
             for pos, i in enumerate(idxs):
                 n = len(runs[i]["events"])
@@ -296,7 +300,7 @@ def validate_runs(runs, trace_module, workdir, nfiles=None, timeout=1800, worker
     log("validated %d runs / %d events against %s in %.1fs: %d rejected" %
         (len(runs), total_ev, trace_module, time.time() - t0, len(rejected)))
     return rejected, {"distinct": distinct, "generated": generated, "wall": time.time() - t0,
-                      "expected_states": expected}
+                      "expected_states": expected, "drift": sorted(set(drift))}
 
 
 # ------------------------------------------------------------------ known findings
